@@ -338,7 +338,7 @@ def blackbox_part(ck, quick):
 
 
 def main():
-    ck = yv.Check("C18", "model_checking", deadlines=(300, 3300))
+    ck = yv.Check("C18", "model_checking", deadlines=(300, 2700))
     quick = ck.tier == "quick"
     stats = dict(states=0, transitions=0, executions=0)
     table = schedule_part(ck, quick, stats)
